@@ -58,7 +58,7 @@ def run(ctx):
     facts = ctx.facts() or {}
     thms = ctx.build_and_audit(["NutsProofs.Props.C17"])
     required = ["allowed_lists_asymmetric", "accept_parseJWT", "accept_parseJWS", "accept_dpop", "accept_dagTx", "accept_dagTx_partial", "accept_dagTx_of_fact",
-                "fact_dag_rejects_private_jwk", "fact_dag_framing_body", "fact_dag_kid_xor_jwk", "fact_alg_fits_key",
+                "fact_dag_rejects_private_jwk", "fact_dag_framing_body", "fact_dag_kid_xor_jwk", "fact_alg_fits_key", "fits_is_the_algorithm_of_the_curve",
                 "accept_apiToken", "accept_jar", "accept_vcJwt", "accept_vcJsonLd", "fact_vcJsonLd", "fact_wiring", "accept_authzV1", "accept_ldProof", "fact_authzV1",
                 "authzV1_without_kid_check_accepts_foreign_key", "header_keys_ignored", "apiToken_key_header_rejected",
                 "parseJWS_splitCompact_mode_accepts_two_uncovered", "dagTx_without_private_check_accepts_private_jwk",
@@ -136,6 +136,17 @@ def run(ctx):
             if i >= len(ops) or not ops[i]:
                 continue
             op = json.loads(ops[i])
+            if op.get("op") == "algfits":
+                # direct oracle on the helper: a NIST-curve key fits exactly the algorithm of its curve (RFC 7518 3.4)
+                want = {"P-256": "ES256", "P-384": "ES384", "P-521": "ES512"}.get(op["shape"].get("curve"))
+                if op["shape"].get("kind") == "ecdsa" and want and (line == "true") != (op["alg"] == want):
+                    sig = "C17:algfits:curve-algorithm-binding"
+                    if sig not in seen_sig:
+                        seen_sig[sig] = 1 if ctx.violation(sig, f"jwx.AlgorithmFitsKey({op['alg']!r}, {op['name']}) = {line}: the algorithm of {op['shape']['curve']} is {want}",
+                                                           "algfits-curve-algorithm-binding.jsonl", ops[i]) else 0
+                    o_bad += 1
+                    o_unsuppressed += seen_sig[sig]
+                continue
             c, cls = op["c"], op["class"]
             table.setdefault(c, Counter())[f"{cls}:{line}"] += 1
             distinct.add((c, op["name"]))
